@@ -36,6 +36,7 @@ type pairScript struct {
 	faulted  bool
 	tag      string
 	sawError [2]map[uint32]bool
+	wfail    [2]bool
 }
 
 func sname(i int) string { return string(rune('A' + i)) }
@@ -137,9 +138,32 @@ func (ps *pairScript) open(i int) {
 
 func (ps *pairScript) write(i int, id uint32, data []byte) {
 	st := ps.rg.S[i].streams[id]
+	live := !ps.rg.S[i].sesh.IsClosed() && !mux.VerifStreamClosed(st)
 	n, _ := st.Write(data)
 	ps.written[i][id] = append(ps.written[i][id], data[:n]...)
+	if ps.wfail[i] && live {
+		// every connection of this side refuses writes: the send fails and tears the session down
+		synctest.Wait()
+		ps.c.o.T("ss.sendfail side="+sname(i), ps.state(i))
+		ps.collect()
+		ps.monitors("write")
+		return
+	}
 	ps.settle("write")
+}
+
+// wfault: the writer of side i sees the reset first — every Write on its connections fails from now on
+func (ps *pairScript) wfault(i int) {
+	if ps.wfail[i] {
+		return
+	}
+	ps.wfail[i] = true
+	for _, c := range ps.rg.S[i].conns {
+		c.mu.Lock()
+		c.wfail = true
+		c.mu.Unlock()
+	}
+	ps.c.o.T("ss.wfault side="+sname(i), "ok")
 }
 
 func (ps *pairScript) deliver(from, k int) bool {
@@ -262,10 +286,14 @@ func (ps *pairScript) closeStream(i int, id uint32) {
 	if st == nil {
 		return
 	}
+	wasOpen := !mux.VerifStreamClosed(st)
 	err := st.Close()
 	res := "ok"
 	if err != nil {
 		res = "repeat"
+		if wasOpen {
+			res = "err"
+		}
 	}
 	synctest.Wait()
 	ps.c.o.T(fmt.Sprintf("ss.closeStream side=%s id=%d", sname(i), id), res+" | "+ps.state(i))
@@ -274,10 +302,14 @@ func (ps *pairScript) closeStream(i int, id uint32) {
 }
 
 func (ps *pairScript) closeSession(i int) {
+	wasOpen := !ps.rg.S[i].sesh.IsClosed()
 	err := ps.rg.S[i].sesh.Close()
 	res := "ok"
 	if err != nil {
 		res = "repeat"
+		if wasOpen {
+			res = "err"
+		}
 	}
 	synctest.Wait()
 	ps.c.o.T("ss.close side="+sname(i), res+" | "+ps.state(i))
@@ -342,6 +374,19 @@ func (ps *pairScript) tick(d time.Duration) {
 
 // finish: close everything, let faults propagate, then check the end-state clauses
 func (ps *pairScript) finish() {
+	// a reset that so far only the writer of one side has seen is completed: both ends see it (property text)
+	if ps.wfail[0] || ps.wfail[1] {
+		for k := range ps.rg.S[0].conns {
+			ps.rg.fault(k)
+		}
+		ps.faulted = true
+		synctest.Wait()
+		for i := 0; i < 2; i++ {
+			ps.c.o.T("ss.fault side="+sname(i), ps.state(i))
+		}
+		ps.collect()
+		ps.monitors("fault-completed")
+	}
 	if !ps.rg.S[0].sesh.IsClosed() && !ps.rg.S[1].sesh.IsClosed() {
 		ps.closeSession(ps.c.r.intn(2))
 	}
@@ -499,10 +544,15 @@ func (ps *pairScript) randomOp(faultsAllowed bool) string {
 				ps.closeSession(i)
 				return "close"
 			}
-		case x < 97:
+		case x < 96:
 			if faultsAllowed {
 				ps.fault(r.intn(nconn))
 				return "fault"
+			}
+		case x < 97:
+			if faultsAllowed && !ps.wfail[i] {
+				ps.wfault(i)
+				return "wfault"
 			}
 		default:
 			ps.propagate()
@@ -612,6 +662,11 @@ func c12(c *ctx) {
 					ps.accept(1, true)
 					if id, ok := ps.anyStream(1); ok {
 						ps.read(1, id, 100, true)
+					}
+					if (total+j+fk)%3 == 0 {
+						// the writer sees the reset first: an active stream close (reader parked on it) runs into the failing send
+						ps.wfault(0)
+						ps.closeStream(0, 1)
 					}
 					ps.fault(fk)
 					ps.finish()
